@@ -76,6 +76,18 @@ class ContinuousDiscretizer(BaseDiscretizer):
         if self.verbose:  # verbose if requested
             print(f" - [ContinuousDiscretizer] Fit {str(self.quantitative_features)}")
 
+        # checking for X's and y's format and for quantitative columns
+        self._prepare_data(X, y)
+        not_numeric = [
+            feature
+            for feature in self.quantitative_features
+            if X[feature].dtype == object and any(isinstance(value, str) for value in X[feature])
+        ]
+        assert len(not_numeric) == 0, (
+            f" - [ContinuousDiscretizer] Non-numeric features: {str(not_numeric)} in provided "
+            "quantitative_features. Please check your inputs."
+        )
+
         # storing ordering
         all_orders = []
 
